@@ -195,10 +195,9 @@ def run_property(pid, tier, seed, only_units=None, quiet=False):
         unw = [f for f in r.failed if '.unwind.' in f['name'] or 'unwinding assertion' in f.get('description', '')]
         if unw:
             errors.append('%s/%s: verification bound too small: unwinding assertion failed (%s)' % (r.unit.name, r.vname, unw[0]['name']))
+            # other FAILED obligations of the run are real counterexamples (a failing path within the bound); only the
+            # SUCCESSES of a run with incomplete unwinding are not to be trusted -- hence the tool error
             r.failed = [f for f in r.failed if f not in unw]
-            if len(r.failed) and all(True for _ in r.failed):
-                # with an incomplete unwinding the remaining verdicts of this run are not trusted either
-                r.failed = []
         for f in r.failed:
             if safety_only and not is_safety(f):
                 ignored_functional += 1
